@@ -11,102 +11,103 @@
 From Bnum Require Import Base Prim.
 From Bnum.Model Require Import Digit Core Shift AddSub Mul Div Bits Pow.
 From Bnum.Proofs Require Import PowDeps Pow Ilog.
+From Bnum.Proofs Require Import Discharge.
 
 (* ================= powers, unsigned ================= *)
 
-Theorem C08_U_overflowing_pow : mul_spec -> forall w n a e,
+Theorem C08_U_overflowing_pow : forall w n a e,
   0 < w -> (0 < n)%nat -> wf w n a -> 0 <= e ->
   let '(r, f) := U_overflowing_pow w a e in
   wf w n r /\ uval w r = (uval w a ^ e) mod Mod w n /\ f = (Mod w n <=? uval w a ^ e).
-Proof. exact U_overflowing_pow_ok. Qed.
+Proof. exact (U_overflowing_pow_ok mul_spec_holds). Qed.
 Print Assumptions C08_U_overflowing_pow.
 
-Theorem C08_U_checked_pow : mul_spec -> forall w n a e,
+Theorem C08_U_checked_pow : forall w n a e,
   0 < w -> (0 < n)%nat -> wf w n a -> 0 <= e ->
   if Mod w n <=? uval w a ^ e then U_checked_pow w a e = None
   else exists r, U_checked_pow w a e = Some r /\ wf w n r /\ uval w r = uval w a ^ e.
-Proof. exact U_checked_pow_ok. Qed.
+Proof. exact (U_checked_pow_ok mul_spec_holds). Qed.
 Print Assumptions C08_U_checked_pow.
 
-Theorem C08_U_wrapping_pow : mul_spec -> forall w n a e,
+Theorem C08_U_wrapping_pow : forall w n a e,
   0 < w -> (0 < n)%nat -> wf w n a -> 0 <= e ->
   wf w n (U_wrapping_pow w a e) /\ uval w (U_wrapping_pow w a e) = (uval w a ^ e) mod Mod w n.
-Proof. exact U_wrapping_pow_ok. Qed.
+Proof. exact (U_wrapping_pow_ok mul_spec_holds). Qed.
 Print Assumptions C08_U_wrapping_pow.
 
-Theorem C08_U_saturating_pow : mul_spec -> forall w n a e,
+Theorem C08_U_saturating_pow : forall w n a e,
   0 < w -> (0 < n)%nat -> wf w n a -> 0 <= e ->
   wf w n (U_saturating_pow w a e) /\
   uval w (U_saturating_pow w a e) = Z.min (Mod w n - 1) (uval w a ^ e).
-Proof. exact U_saturating_pow_ok. Qed.
+Proof. exact (U_saturating_pow_ok mul_spec_holds). Qed.
 Print Assumptions C08_U_saturating_pow.
 
-Theorem C08_U_strict_pow : mul_spec -> forall w n a e,
+Theorem C08_U_strict_pow : forall w n a e,
   0 < w -> (0 < n)%nat -> wf w n a -> 0 <= e ->
   if Mod w n <=? uval w a ^ e then U_strict_pow w a e = Panic
   else exists r, U_strict_pow w a e = Ret r /\ wf w n r /\ uval w r = uval w a ^ e.
-Proof. exact U_strict_pow_ok. Qed.
+Proof. exact (U_strict_pow_ok mul_spec_holds). Qed.
 Print Assumptions C08_U_strict_pow.
 
 (* inherent pow: panics exactly on overflow in debug builds, wraps in release builds *)
-Theorem C08_U_pow : mul_spec -> forall dbg w n a e,
+Theorem C08_U_pow : forall dbg w n a e,
   0 < w -> (0 < n)%nat -> wf w n a -> 0 <= e ->
   if dbg && (Mod w n <=? uval w a ^ e) then U_pow dbg w a e = Panic
   else exists r, U_pow dbg w a e = Ret r /\ wf w n r /\ uval w r = (uval w a ^ e) mod Mod w n.
-Proof. exact U_pow_ok. Qed.
+Proof. exact (U_pow_ok mul_spec_holds). Qed.
 Print Assumptions C08_U_pow.
 
 (* ================= powers, signed ================= *)
 
-Theorem C08_I_overflowing_pow : mul_spec -> forall w n a e,
+Theorem C08_I_overflowing_pow : forall w n a e,
   0 < w -> (0 < n)%nat -> wf w n a -> 0 <= e ->
   let '(r, f) := I_overflowing_pow w a e in
   wf w n r /\ sval w r = wrapS (Mod w n) (sval w a ^ e) /\ f = negb (inS (Mod w n) (sval w a ^ e)).
-Proof. exact I_overflowing_pow_ok. Qed.
+Proof. exact (I_overflowing_pow_ok mul_spec_holds). Qed.
 Print Assumptions C08_I_overflowing_pow.
 
-Theorem C08_I_checked_pow : mul_spec -> forall w n a e,
+Theorem C08_I_checked_pow : forall w n a e,
   0 < w -> (0 < n)%nat -> wf w n a -> 0 <= e ->
   if inS (Mod w n) (sval w a ^ e)
   then exists r, I_checked_pow w a e = Some r /\ wf w n r /\ sval w r = sval w a ^ e
   else I_checked_pow w a e = None.
-Proof. exact I_checked_pow_ok. Qed.
+Proof. exact (I_checked_pow_ok mul_spec_holds). Qed.
 Print Assumptions C08_I_checked_pow.
 
-Theorem C08_I_wrapping_pow : mul_spec -> forall w n a e,
+Theorem C08_I_wrapping_pow : forall w n a e,
   0 < w -> (0 < n)%nat -> wf w n a -> 0 <= e ->
   wf w n (I_wrapping_pow w a e) /\ sval w (I_wrapping_pow w a e) = wrapS (Mod w n) (sval w a ^ e).
-Proof. exact I_wrapping_pow_ok. Qed.
+Proof. exact (I_wrapping_pow_ok mul_spec_holds). Qed.
 Print Assumptions C08_I_wrapping_pow.
 
 (* clamp to [MIN, MAX] *)
-Theorem C08_I_saturating_pow : mul_spec -> forall w n a e,
+Theorem C08_I_saturating_pow : forall w n a e,
   0 < w -> (0 < n)%nat -> wf w n a -> 0 <= e ->
   wf w n (I_saturating_pow w a e) /\
   sval w (I_saturating_pow w a e) = Z.max (- (Mod w n / 2)) (Z.min (Mod w n / 2 - 1) (sval w a ^ e)).
-Proof. exact I_saturating_pow_ok. Qed.
+Proof. exact (I_saturating_pow_ok mul_spec_holds). Qed.
 Print Assumptions C08_I_saturating_pow.
 
 (* on overflow: MIN exactly for a negative base with an odd exponent, MAX otherwise *)
-Theorem C08_I_saturating_pow_min : mul_spec -> forall w n a e,
+Theorem C08_I_saturating_pow_min : forall w n a e,
   0 < w -> (0 < n)%nat -> wf w n a -> 0 <= e -> inS (Mod w n) (sval w a ^ e) = false ->
   I_saturating_pow w a e = if (sval w a <? 0) && Z.odd e then IMIN w n else IMAX w n.
-Proof. exact I_saturating_pow_min. Qed.
+Proof. exact (I_saturating_pow_min mul_spec_holds). Qed.
 Print Assumptions C08_I_saturating_pow_min.
 
-Theorem C08_I_strict_pow : mul_spec -> forall w n a e,
+Theorem C08_I_strict_pow : forall w n a e,
   0 < w -> (0 < n)%nat -> wf w n a -> 0 <= e ->
   if inS (Mod w n) (sval w a ^ e)
   then exists r, I_strict_pow w a e = Ret r /\ wf w n r /\ sval w r = sval w a ^ e
   else I_strict_pow w a e = Panic.
-Proof. exact I_strict_pow_ok. Qed.
+Proof. exact (I_strict_pow_ok mul_spec_holds). Qed.
 Print Assumptions C08_I_strict_pow.
 
-Theorem C08_I_pow : mul_spec -> forall dbg w n a e,
+Theorem C08_I_pow : forall dbg w n a e,
   0 < w -> (0 < n)%nat -> wf w n a -> 0 <= e ->
   if dbg && negb (inS (Mod w n) (sval w a ^ e)) then I_pow dbg w a e = Panic
   else exists r, I_pow dbg w a e = Ret r /\ wf w n r /\ sval w r = wrapS (Mod w n) (sval w a ^ e).
-Proof. exact I_pow_ok. Qed.
+Proof. exact (I_pow_ok mul_spec_holds). Qed.
 Print Assumptions C08_I_pow.
 
 (* ================= logarithms, unsigned ================= *)
